@@ -67,27 +67,30 @@ def handleBucket (c : Case) (packs : List Pack) : Verdict := Id.run do
   let implAt (t n : Nat) : Impl :=
     if t ≤ T && n ≤ T then (tab[t * (T + 1) + n]!).getD (.sel [])
     else match rest.lookup (t, n) with | some v => v | none => .sel []
+  -- 1. the property predicate on the implementation's own selections, for every t
+  for t in [1:T+1] do
+    let selF (n : Nat) : List Pack := match implAt t n with | .sel l => l | _ => []
+    let bad := (List.range t).any fun i => match implAt t (i + 1) with | .sel _ => false | _ => true
+    if bad then
+      return .specfalse "C52:bucket:accepted-pair-panics-or-selects-foreign-pack" s!"t={t}"
+    if !specBuckets packs t selF then
+      let uncovered := packs.any fun p => !((List.range t).any fun i => (selF (i + 1)).contains p)
+      let sig := if uncovered then "C52:bucket:pack-in-no-bucket" else "C52:bucket:pack-in-several-buckets-or-foreign"
+      return .specfalse sig s!"t={t} packs={packs.length}"
+  -- 2. model vs implementation, every (t, n)
   let mut nonEmptyBuckets := 0
   let mut maxBucket := 0
   for t in [1:T+1] do
-    -- model vs implementation, every n
     for n in [1:t+1] do
       let m := selectPacksByBucket packs n t
       let i := implAt t n
       if !outEq m i then
-        -- is the property itself violated by what the implementation selected?
         return .differ "bucket" s!"t={t} n={n} model={showOut m} impl={showImpl i}"
       match i with
       | .sel l => if !l.isEmpty then
           nonEmptyBuckets := nonEmptyBuckets + 1
           if l.length > maxBucket then maxBucket := l.length
       | _ => pure ()
-    -- the property predicate on the implementation's own selections
-    let selF (n : Nat) : List Pack := match implAt t n with | .sel l => l | _ => []
-    if !specBuckets packs t selF then
-      let uncovered := packs.any fun p => !((List.range t).any fun i => (selF (i + 1)).contains p)
-      let sig := if uncovered then "C52:bucket:pack-in-no-bucket" else "C52:bucket:pack-in-several-buckets-or-foreign"
-      return .specfalse sig s!"t={t} packs={packs.length}"
   -- pairs outside the accepted range: correspondence only
   let mut extraPanics := 0
   for r in c.findAll "extra" do
@@ -193,19 +196,22 @@ def handleCli (c : Case) (packs : List Pack) : Verdict := Id.run do
   let mut tSeen := 0
   let mut sum := 0
   let mut cntN := 0
+  let mut firstDiffer : Option Verdict := none
   for r in recs do
     match (r.getD 1 "").toNat?, (r.getD 2 "").toNat?, (r.getD 3 "").toNat?, (r.getD 4 "").toNat? with
     | some t, some n, some cnt, some total =>
       tSeen := t
-      if total != packs.length then return .differ "cli-total" s!"t={t} n={n} total={total} packs-in-backend={packs.length}"
       let m := match selectPacksByBucket packs n t with | .ok l => l.length | .panic => 0
-      if m != cnt then return .differ "cli-count" s!"t={t} n={n} model={m} impl={cnt}"
+      if firstDiffer.isNone then
+        if total != packs.length then firstDiffer := some (.differ "cli-total" s!"t={t} n={n} total={total} packs-in-backend={packs.length}")
+        else if m != cnt then firstDiffer := some (.differ "cli-count" s!"t={t} n={n} model={m} impl={cnt}")
       sum := sum + cnt
       cntN := cntN + 1
     | _, _, _, _ => return .differ "cli" s!"unparsable check output {r.getD 4 "-"}"
   -- when every n of t was run: the counts must add up to the number of packs (partition)
   if cntN == tSeen && sum != packs.length then
     return .specfalse "C52:cli:bucket-counts-do-not-add-up" s!"t={tSeen} sum={sum} packs={packs.length}"
+  if let some v := firstDiffer then return v
   return .agree (!packs.isEmpty) ["cli", if cntN == tSeen then "all-n" else "sampled-n"]
 
 def handleC52 (c : Case) : Verdict :=
